@@ -104,8 +104,6 @@ def rescaling_tangent(ctx, n):
            functions=[H + "Subspace.reflection_across", H + "Hyperplane.__init__", "geometry_tools/projective.py:Transformation.apply"])
 def rescaling_reflection_and_apply(ctx, n):
     v = spacelike(ctx, 'v', n)
-    ctx.assume(v[0] * v[0], '>', 0)
-    ctx.kernel_gs_form = spec.J(n + 1)
     a = ctx.real('a', lambda r: r.uniform(0.2, 5))       # positive and negative factor separately (sign paths)
     ctx.assume(a, '>', 0)
     R0 = h.Hyperplane(np.array(v, copy=True)).reflection_across().proj_data
@@ -214,6 +212,36 @@ def packaging(tier, rng, rep):
         if r is not None:
             res[pname] = np.asarray(r, dtype=float)
     compare(res, "Transformation")
+    # coordinates of points / normals as nested lists of Python ints, integer arrays, float arrays: the queries succeed and agree
+    coords = {"point_2d": ([5, 3, 0], [2, 0, 1]), "point_3d": ([4, 1, -2, 0], [3, 0, 1, 1])}
+    for cname, (x, y) in coords.items():
+        queries = {
+            "coords_klein": lambda a, b: h.Point(a).coords("klein"), "coords_poincare": lambda a, b: h.Point(a).coords("poincare"),
+            "coords_halfspace": lambda a, b: h.Point(a).coords("halfspace"), "coords_hyperboloid": lambda a, b: h.Point(a).coords("hyperboloid"),
+            "distance": lambda a, b: h.Point(a).distance(h.Point(b)), "origin_to": lambda a, b: h.Point(a).origin_to().proj_data,
+            "unit_tangent": lambda a, b: h.Point(a).unit_tangent_towards(h.Point(b)).point_along(0.5).coords("klein"),
+            "segment_ideal_endpoints": lambda a, b: h.Segment(h.Point(a), h.Point(b)).ideal_endpoint_coords("klein"),
+            "rotated": lambda a, b: (h.Isometry.standard_rotation(1, dimension=len(x) - 1) @ h.Point(a)).coords("klein"),
+        }
+        for qname, f in queries.items():
+            res = {}
+            for pname, cv in {"float_array": lambda v: np.array(v, dtype=float), "nested_list_of_ints": lambda v: list(v), "int64_array": lambda v: np.array(v, dtype=np.int64),
+                              "int32_array": lambda v: np.array(v, dtype=np.int32), "list_of_floats": lambda v: [float(c) for c in v]}.items():
+                inp = {"entry": f"Point.{qname}", "coordinates": [x, y], "packaging": pname}
+                r = rep.attempt("entry_point_runs", inp, lambda: f(cv(x), cv(y)))
+                rep.case(key=(cname, qname, pname), nontrivial=pname != "float_array")
+                if r is not None and floating(r, f"Point.{qname}", inp):
+                    res[pname] = np.asarray(r, dtype=float)
+            compare(res, f"Point.{qname} on {cname}")
+    for nv in ([0, 1, 2], [1, 2, 2], [0, 1, 1], [0, 2, -1, 1]):
+        res = {}
+        for pname, cv in {"float_array": lambda v: np.array(v, dtype=float), "nested_list_of_ints": lambda v: list(v), "int64_array": lambda v: np.array(v, dtype=np.int64)}.items():
+            inp = {"entry": "Hyperplane.reflection_across", "normal": nv, "packaging": pname}
+            r = rep.attempt("entry_point_runs", inp, lambda: h.Hyperplane(cv(nv)).reflection_across().proj_data)
+            rep.case(key=("normal", tuple(nv), pname), nontrivial=pname != "float_array")
+            if r is not None and floating(r, "reflection_across", inp):
+                res[pname] = np.asarray(r, dtype=float)
+        compare(res, f"Hyperplane({nv}).reflection_across")
     # Coxeter labels: ints, floats, numpy ints, infinite labels as 0 or negative
     for tri in ((2, 3, 7), (3, 3, 4), (2, 3, 0), (2, 4, -1), (0, 0, 0)):
         res = {}
